@@ -1436,7 +1436,7 @@ func (md *DIMacroFile) LLString() string {
 	}
 	var fields []string
 	if md.Type != 0 {
-		field := fmt.Sprintf("type: %s", md.Type)
+		field := fmt.Sprintf("type: %s", enumOrIntString(md.Type))
 		fields = append(fields, field)
 	}
 	if md.Line != 0 {
